@@ -149,6 +149,35 @@ def accessSet (cur : Access) (allowed disallowed : List Entry) (hosts : List Byt
     | .error e => (cur, some (.conf e))
     | .ok a => (a, none)
 
+/-! ### `Server.Prepare`: defaults, then the access manager (dnsforward.go, config.go)
+
+`initDefaultSettings` replaces an empty `BlockedHosts` by the default names;
+`Prepare` calls it BEFORE `newAccessCtx(s.conf.…)`, so the rule engine is built
+from the same list `/control/access/list` reports. -/
+
+/-- `defaultBlockedHosts`: "version.bind", "id.server", "hostname.bind" -/
+def defaultBlockedHosts : List Bytes :=
+  [[118, 101, 114, 115, 105, 111, 110, 46, 98, 105, 110, 100],
+   [105, 100, 46, 115, 101, 114, 118, 101, 114],
+   [104, 111, 115, 116, 110, 97, 109, 101, 46, 98, 105, 110, 100]]
+
+/-- the `BlockedHosts` part of `initDefaultSettings` -/
+def initDefaultHosts (hosts : List Bytes) : List Bytes :=
+  if hosts.length = 0 then defaultBlockedHosts else hosts
+
+/-- The access part of `Prepare`: the manager, the list the engine is built
+from, and the list `s.conf.BlockedHosts` (what the API reports) holds afterwards. -/
+structure Prepared where
+  access : Access
+  engineHosts : List Bytes
+  reportedHosts : List Bytes
+
+def prepare (allowed disallowed : List Entry) (hosts : List Bytes) : Except ConfErr Prepared :=
+  let conf := initDefaultHosts hosts
+  match newAccessCtx allowed disallowed with
+  | .error e => .error e
+  | .ok a => .ok ⟨a, conf, conf⟩
+
 /-- `allowlistMode` -/
 def Access.allowlistMode (a : Access) : Bool :=
   a.allowed.ips.length != 0 || a.allowed.ids.length != 0 || a.allowed.nets.length != 0
